@@ -839,7 +839,10 @@ def install():
 
     def s_rename(src, dst):
         if not (is_sim_path(src) and is_sim_path(dst)):
-            raise SimUnsupported("rename between sim and real paths")
+            # the simulated home is its own file system: a rename from or to
+            # the real one (e.g. a system temp dir) is a cross-device link
+            raise OSError(errno.EXDEV, os.strerror(errno.EXDEV),
+                          os.fspath(src), None, os.fspath(dst))
         return _gate("rename", SimFS.norm(dst),
                      lambda f: SEAM.fs.op_rename(src, dst), "cleanup")
 
